@@ -269,4 +269,5 @@ VARIANTS = [
     V("std-factors-swapped", GF, "self.std[idx_toolow] *= 1 - self._adaptive_std_factor", "self.std[idx_toolow] *= 1 + self._adaptive_std_factor", "C19.R3"),
     V("factor-range-open", GF, "        if not (0 < adaptive_std_factor < 1):", "        if not (0 < adaptive_std_factor <= 2):", "C19.R3"),
     V("silent-guard-le-zero", A, "        if self._annealing_period < 1:\n", "        if self._annealing_period <= 0:\n", None),
+    V("silent-rename-idx", "src/leaspy/samplers/gibbs.py", "idx_toolow", "low", None, count=2),
 ]
